@@ -139,6 +139,7 @@ def run(db, chk):
 
         # ------------------------------------------------------------------ P4 (= C07-G2)
         purity(db, eff, chk, uname, "C09-P4")
+        cache_hit_rule(db, chk, uname, "C09-P4")
 
         # ------------------------------------------------------------------ P2
         persist.audit(db, eff, chk, uname)
@@ -200,6 +201,56 @@ def grid_classes(db, uname):
     if target == "fastscapelib::raster_grid":
         names.add("fastscapelib::raster_neighbors")
     return target, names
+
+
+def shared_storage_refs(fn, seen=None, depth=0):
+    """references to static / thread_local / global variables reachable from fn's body through
+    library callees (bounded depth); returns [(name, where)]"""
+    from ..sir import walk
+    seen = seen if seen is not None else set()
+    out = []
+    if fn.body is None:
+        return out
+    for n in walk(fn.body):
+        if n.get("k") == "ref" and (n.get("rk") in ("slocal", "global") or n.get("tls")):
+            if n.get("cv") is None and n.get("cvs") is None and n.get("cvf") is None:
+                out.append((n.get("n"), fn.loc(n)))
+        if n.get("k") == "call" and n.get("fid") is not None and depth < 5:
+            cal = fn.callee(n)
+            if cal is not None and cal.key not in seen and (cal.cls or "").startswith("fastscapelib"):
+                seen.add(cal.key)
+                out += shared_storage_refs(cal, seen, depth + 1)
+    # static locals are also declared (not only referenced)
+    for n in walk(fn.body):
+        if "d" in n and "k" not in n and (n.get("static") or n.get("tls")):
+            out.append((n.get("n"), fn.loc(n)))
+    return out
+
+
+def cache_hit_rule(db, chk, uname, rid):
+    """the hit test / hit path of a neighbour-cache policy may only depend on the cache object's own
+    members: a hit decided by storage shared between grid objects returns another grid's data"""
+    n = 0
+    from ..sir import walk, const_value
+    never_hits = set()
+    for f in db.fns(unit=uname, pred=lambda f: (f.cls or "").startswith("fastscapelib::neighbors_")
+                    and f.name == "has"):
+        rets = [x for x in walk(f.body) if x.get("k") == "return"]
+        if rets and all(r.get("e") is not None and const_value(r["e"]) in (False, 0) for r in rets):
+            never_hits.add(f.d.get("clst"))
+    for f in db.fns(unit=uname, pred=lambda f: (f.cls or "").startswith("fastscapelib::neighbors_")
+                    and f.name in ("has", "get")):
+        if f.name == "get" and f.d.get("clst") in never_hits:
+            continue            # a policy that never reports a hit never serves get()
+        n += 1
+        refs = shared_storage_refs(f)
+        chk.ob(rid, "%s::%s depends only on the cache object's own members [%s]" % (f.cls.split("::")[-1], f.name, uname),
+               not refs, where=(refs[0][1] if refs else f.ploc), function=f.bn, construct="cache-hit(%s)" % f.name,
+               detail="" if not refs else "reads %s, storage shared by every grid of the thread: a look-up on one "
+               "grid can return the neighbours computed for another" % sorted({r[0] for r in refs}),
+               extra={"unit": uname})
+    if n == 0:
+        raise AnalysisBroken("%s: no neighbour-cache policy (has / get) instantiated in %s" % (rid, uname))
 
 
 def purity(db, eff, chk, uname, rid):
